@@ -213,7 +213,7 @@ Proof.
         split; [intros i _ _; reflexivity|].
         exists (concat tbl). split; [exact Hr|reflexivity]. }
     pose proof (prefix_len_field _ _ _ Hm' Hp') as E28.
-    pose proof (spec_header_inv _ _ _ Eh) as (_ & _ & _ & _ & E28' & _).
+    pose proof (spec_header_inv _ _ _ Eh) as (_ & E28' & _).
     assert (Ehdr : len h' = w_hdr s) by congruence.
     assert (HI' : Inv {| w_meta := meta'; w_hdr := len h'; w_bs := w_bs s |}).
     { constructor; cbn [w_meta w_hdr w_bs]; rewrite ?Ehdr; [exists m, kv, limit, tbl; exact Hread| |exact Ht].
